@@ -262,7 +262,9 @@ theorem inv_step {s : St} (h : Inv s) (op : Op) : Inv (step .repaired s op) := b
     simp only [step]
     split
     · constructor <;> simp only [upd] <;> grind [Inv]
-    · exact h
+    · split
+      · constructor <;> simp only [upd] <;> grind [Inv]
+      · exact h
   | hsFail c =>
     simp only [step]
     split
@@ -385,7 +387,7 @@ theorem same4_unregister (s : St) (c : Nat) : Same4 s (unregister .repaired s c)
 theorem step_frame (s : St) (op : Op) :
     (step .repaired s op).n = s.n ∧
     (∀ c, s.opened c = true → (step .repaired s op).opened c = true) ∧
-    (∀ c, s.gone c = true → (step .repaired s op).gone c = true) ∧
+    (∀ c, s.gone c = true → (step .repaired s op).gone c = true ∨ op = .accept c) ∧
     (∀ acc : Nat → Bool, (∀ c, s.pend c ≠ none → acc c = true) →
       ∀ c, (step .repaired s op).pend c ≠ none → pendStep acc op c = true) := by
   have key : ∀ t, Same4 s t →
@@ -398,7 +400,9 @@ theorem step_frame (s : St) (op : Op) :
     simp only [step, pendStep]
     split
     · simp only [upd]; grind [upd]
-    · grind [upd]
+    · split
+      · simp only [upd]; grind [upd]
+      · grind [upd]
   | hsFail c =>
     simp only [step, pendStep]
     split
@@ -431,7 +435,7 @@ theorem step_frame (s : St) (op : Op) :
       obtain ⟨a, b, c', d⟩ := same4_hsFinish (setPend s c none) c p
       refine ⟨by rw [a]; rfl, ?_, ?_, ?_⟩
       · rw [b]; exact fun _ h => h
-      · rw [c']; exact fun _ h => h
+      · rw [c']; exact fun _ h => Or.inl h
       · intro acc hacc c1
         rw [d]
         simp only [setPend, upd]
@@ -479,25 +483,47 @@ theorem step_syn (n : Nat) (s : St) (acc : (Nat → Bool) × (Nat → Bool)) (op
   obtain ⟨_, fo, fg, _⟩ := step_frame s op
   cases op with
   | accept c =>
-    refine ⟨?_, fun c' h => fg c' (h2 c' (by simpa [synStep] using (by
-      revert h; simp only [synStep]; split <;> exact fun h => h)))⟩
-    intro c' h
-    simp only [synStep] at h
-    split at h
-    · simp only [upd] at h
-      by_cases e : c' = c
-      · subst e
-        simp only [step]
-        split
-        · simp [upd]
-        · rename_i hno
-          cases ho : s.opened c'
-          · exact absurd ⟨by omega, ho⟩ hno
-          · rfl
-      · simp only [e, if_false] at h
-        exact fo c' (h1 c' h)
-    · exact fo c' (h1 c' h)
+    constructor
+    · intro c' h
+      simp only [synStep] at h
+      split at h
+      · simp only [upd] at h
+        by_cases e : c' = c
+        · subst e
+          simp only [step]
+          split
+          · simp [upd]
+          · rename_i hno
+            have ho : s.opened c' = true := by
+              cases ho : s.opened c'
+              · exact absurd ⟨by omega, ho⟩ hno
+              · rfl
+            split <;> exact ho
+        · simp only [e, if_false] at h
+          exact fo c' (h1 c' h)
+      · exact fo c' (h1 c' h)
+    · intro c' h
+      simp only [synStep] at h
+      split at h
+      · simp only [upd] at h
+        by_cases e : c' = c
+        · simp [e] at h
+        · simp only [e, if_false] at h
+          rcases fg c' (h2 c' h) with g | g
+          · exact g
+          · injection g with g; exact absurd g.symm e
+      · rcases fg c' (h2 c' h) with g | g
+        · exact g
+        · rename_i hnc
+          injection g with g
+          -- c ≥ n: the step is a no-op
+          have hlt : ¬ c < s.n := by omega
+          have hg := h2 c' h
+          simp only [step]
+          simp [hlt, hg]
   | close c =>
+    have fg' : ∀ c', s.gone c' = true → (step .repaired s (.close c)).gone c' = true :=
+      fun c' h => (fg c' h).resolve_right (by simp)
     refine ⟨fun c' h => fo c' (h1 c' (by
       revert h; simp only [synStep]; split <;> exact fun h => h)), ?_⟩
     intro c' h
@@ -511,9 +537,9 @@ theorem step_syn (n : Nat) (s : St) (acc : (Nat → Bool) × (Nat → Bool)) (op
         rw [if_pos (by omega), closeConn_gone, h1 c' hc.2]
         simp
       · simp only [e, if_false] at h
-        exact fg c' (h2 c' h)
-    · exact fg c' (h2 c' h)
-  | _ => exact ⟨fun c h => fo c (h1 c h), fun c h => fg c (h2 c h)⟩
+        exact fg' c' (h2 c' h)
+    · exact fg' c' (h2 c' h)
+  | _ => exact ⟨fun c h => fo c (h1 c h), fun c h => (fg c (h2 c h)).resolve_right (by simp)⟩
 
 /-- `accept c … close c` in the history ⇒ the model's ghost `gone c` -/
 theorem run_gone (n : Nat) (ops : List Op) : ∀ (s : St) (acc : (Nat → Bool) × (Nat → Bool)), s.n = n →
